@@ -433,6 +433,9 @@ func leftPos(e any) token.Position {
 }
 
 // c04Check runs one (input, configuration, mode) against the interceptor-free observation.
+// c04Events counts interceptor log events checked against the step model (measured by the worker).
+var c04Events int64
+
 func c04Check(src string, cfg c04Cfg, m Mode, base *c04Base, wantSteps *[2]string) (kind, detail string) {
 	var lg c04Log
 	pb := c04Build(cfg, m, &lg)
@@ -473,7 +476,9 @@ func c04Check(src string, cfg c04Cfg, m Mode, base *c04Base, wantSteps *[2]strin
 			return "token-count", fmt.Sprintf("token interceptor %d entered %d times for %d token requests", i, n, requests)
 		}
 	}
+	c04Events += int64(len(lg.tok))
 	lg.tok = nil
+	defer func() { c04Events += int64(len(lg.stmt) + len(lg.expr)) }()
 	// (a) transparency of the parse
 	o := parseWith(pb, src)
 	if o.Panic != "" {
@@ -630,6 +635,7 @@ func c04RunInput(c *core.Ctx, src string, cfgs []c04Cfg, modes []Mode, size int)
 }
 
 func c04Run(c *core.Ctx) {
+	defer func() { c.Count("interceptor_log_events", c04Events) }()
 	full := c04Cfgs(1)
 	if c.Thorough() {
 		full = c04Cfgs(2)
@@ -759,9 +765,9 @@ func c04Replay(pl json.RawMessage) (string, []core.Violation) {
 func init() {
 	core.Register(&core.PropSpec{
 		ID: "C04", Level: "model_checking",
-		Rule:     "configuration x input product with an interceptor-log model: configurations = token interceptor counts {1,2,8}, statement interceptor counts {1,2,3,8}, every sequence of pass-through/re-entrant expression interceptors of length <= 3 (4 thorough) plus 8-long ones, mixed sets, installed directly or through Install(plugin) (35 quick / 56 thorough; a reduced set of 4 re-entrance/order configurations on the largest universes); inputs = ALL token sequences <= 3 (4 thorough), valid or malformed, in space and LF layouts, every expression chain of depth <= 3 (as statement and as argument), statement families and nesting chains. Oracle per (input, configuration): tokens (lexer driven directly), tree dump with positions, Errors(), compact and pretty output identical to the interceptor-free run; each token interceptor entered exactly once per token request with Line/Column/CurrentChar on the first byte of the lexeme that request returns; statement/expression interceptor logs are complete runs 0..n-1 in installation order with one current token per run, properly nested; the step list of interceptor 0 is the same in every configuration; the entry token of a step is the leftmost token of the construct it returns; on error-free parses every statement of the tree and every operand outside the left spine was returned by exactly one step. states = distinct (input, mode) pairs, transitions = (input, configuration) runs",
+		Rule:     "configuration x input product with an interceptor-log model: configurations = token interceptor counts {1,2,8}, statement interceptor counts {1,2,3,8}, every sequence of pass-through/re-entrant expression interceptors of length <= 3 (4 thorough) plus 8-long ones, mixed sets, installed directly or through Install(plugin) (35 quick / 56 thorough; a reduced set of 4 re-entrance/order configurations on the largest universes); inputs = ALL token sequences <= 3 (4 thorough), valid or malformed, in space and LF layouts, every expression chain of depth <= 3 (as statement and as argument), statement families and nesting chains. Oracle per (input, configuration): tokens (lexer driven directly), tree dump with positions, Errors(), compact and pretty output identical to the interceptor-free run; each token interceptor entered exactly once per token request with Line/Column/CurrentChar on the first byte of the lexeme that request returns; statement/expression interceptor logs are complete runs 0..n-1 in installation order with one current token per run, properly nested; the step list of interceptor 0 is the same in every configuration; the entry token of a step is the leftmost token of the construct it returns; on error-free parses every statement of the tree and every operand outside the left spine was returned by exactly one step. states = distinct (input, mode) pairs, transitions = interceptor log events (token requests, statement and expression step entries/exits) checked against the log model",
 		Assume:   []string{"a re-entrant interceptor ends the chain (it does not call next), so interceptors installed after it are not entered", "whether the property name after '.' is a parse step of its own is not constrained"},
 		QuickSec: 240, ThorSec: 1800, Run: c04Run, Replay: c04Replay,
-		Evals: "config_runs", Nontriv: "valid_inputs", States: "inputs", Trans: "config_runs",
+		Evals: "config_runs", Nontriv: "valid_inputs", States: "inputs", Trans: "interceptor_log_events",
 	})
 }
